@@ -325,7 +325,7 @@ func runSort(dir string, seed int64, n int) {
 // projections
 
 func projDoc(g *gen.G) bson.D {
-	d := bson.D{{Key: "_id", Value: g.Pick(int32(1), "id", bson.D{{Key: "k", Value: int32(1)}})}}
+	d := bson.D{{Key: "_id", Value: g.Pick(int32(1), "id", bson.D{{Key: "k", Value: int32(1)}}, bson.D{{Key: "k", Value: bson.A{int32(1), int32(2), int32(3)}}, {Key: "j", Value: "x"}})}}
 	arr := func() bson.A {
 		n := g.N(5)
 		a := bson.A{}
@@ -368,7 +368,7 @@ func projection(g *gen.G) bson.D {
 	used := map[string]bool{}
 	mode := g.N(3) // 0 include, 1 exclude, 2 mixed
 	for i := 0; i < n; i++ {
-		k := g.PickS("a", "b", "c", "a.b", "a.c", "b.c", "a.b.c", "a.b.d", "b.d", "_id", "a.d", "zz")
+		k := g.PickS("a", "b", "c", "a.b", "a.c", "b.c", "a.b.c", "a.b.d", "b.d", "_id", "a.d", "zz", "_id.k", "_id")
 		if used[k] {
 			continue
 		}
